@@ -25,6 +25,7 @@ from sa.ir import load_program, strip, walk, ASSIGN_OPS as cu_ASSIGN
 from sa.report import Finding, Result
 from sa.pp import pp
 from sa import cfgutil as cu
+import re
 from sa.cursor import CursorAnalysis, INF, MEMFNS
 
 PROP = "C08"
@@ -450,6 +451,8 @@ def run(tier):
     rule_R1i(res, prog, cg)
     rule_R5(res, prog)
     rule_R6(res, prog)
+    rule_R7(res, prog)
+    rule_R8(res, prog)
     return res.finish()
 
 
@@ -906,3 +909,117 @@ def rule_R6(res, prog):
                                  fn.relfile, ln, fn.name, call["fn"], cv[1], [p_[1] for p_ in esc[-6:-1]], hm, fam), file=fn.relfile, line=ln)
             res.instance(rid, "%s:%s %s(%s) initialised on every path" % (fn.name, ln, call["fn"], cv[1][:24]), esc is None, finding=f_)
     res.floor(rid, 5)
+
+
+def rule_R7(res, prog):
+    """The record decoders are outside the zone analysis (EXCLUDED).  One pattern in them is decided separately: a cursor
+    advanced by a LOCAL that was read from the wire in the same function (`n = c[0] << 8 | c[1]; c += n`) is advanced only
+    under the branch fact that n does not exceed the bytes left (`(end - c) < n` false).  The cursor is handed back to
+    matrixSslReceivedData, which subtracts the consumed bytes from ssl->inlen: a skip past `end` makes inlen negative and
+    the next read buffer pointer lies in front of the input buffer."""
+    from sa import cfgutil as cu
+    from sa.pp import pp as _pp
+    rid = "C08.R7"
+    res.rule(rid, "record decoders: a cursor advance by a length read from the wire in the same function is bounded by the bytes left")
+    n = 0
+    for name in sorted(EXCLUDED):
+        lst = prog.by_name.get(name)
+        if not lst or not lst[0].blocks:
+            continue
+        fn = lst[0]
+        gf = cu.guard_facts(fn)
+        rd = cu.reaching_defs(fn)
+        for b in fn.blocks:
+            for i, ln, x in cu.block_exprs(b):
+                for m in walk(x):
+                    if not (m.get("k") == "bin" and m["op"] == "+=" and (strip(m["l"]) or {}).get("k") == "var" and
+                            "*" in ((strip(m["l"]) or {}).get("t") or "")):
+                        continue
+                    r = strip(m["r"])
+                    while r is not None and r.get("k") == "cast":
+                        r = strip(r["e"])
+                    if r is None or r.get("k") != "var" or r.get("sc") != "l":
+                        continue
+                    ds = cu.defs_at(fn, rd, b["id"], i, r["id"])
+                    cur = strip(m["l"])["n"]
+                    wire = [d for d in ds if d[3] is not None and isinstance(d[3], dict) and
+                            any(q.get("k") == "un" and q.get("op") == "*" and (strip(q.get("e")) or {}).get("n") == cur for q in walk(d[3]))]
+                    if not wire:
+                        continue
+                    n += 1
+                    v = r["n"]
+                    ok = False
+                    for (txt, tr) in gf.get(b["id"], ()):
+                        t2 = txt.replace("(unsigned int)", "").replace("(uint32)", "").replace("(int)", "").replace("(int32)", "")
+                        if not tr and re.match(r"^\(\(*\w+ - %s\)* < %s\)$" % (re.escape(cur), re.escape(v)), t2):
+                            ok = True
+                        if not tr and re.match(r"^\(%s > \(*\w+ - %s\)*\)$" % (re.escape(v), re.escape(cur)), t2):
+                            ok = True
+                        if tr and re.match(r"^\(\(*\w+ - %s\)* >= %s\)$" % (re.escape(cur), re.escape(v)), t2):
+                            ok = True
+                    f_ = None
+                    if not ok:
+                        f_ = Finding(PROP, rid, fn.name, "cursor skipped by an unchecked wire length",
+                                     "%s:%s %s(): `%s` with %s read from the record a few lines above and no branch fact that it does not "
+                                     "exceed the bytes left (`(end - %s) < %s` false): the decoder reports more bytes consumed than it was "
+                                     "given, ssl->inlen goes negative and matrixSslGetReadbuf hands out a pointer in front of the input buffer" % (
+                                         fn.relfile, ln, fn.name, _pp(m)[:40], v, cur, v), file=fn.relfile, line=ln)
+                    res.instance(rid, "%s:%s %s bounded by the bytes left" % (fn.name, ln, _pp(m)[:30]), ok, finding=f_)
+    res.floor(rid, 1)
+
+
+def rule_R8(res, prog):
+    """DTLS reassembly (parseSSLHandshake): the buffer is sized from the first fragment's message length, stored fragments
+    are counted towards the total and hashed in offset order as a gap-free sequence.  So a fragment is stored (fragTotal +=
+    fragLen) only under the branch facts (a) its message length equals the stored one (the reassembled message is parsed up
+    to that length), (b) it is not empty (an empty fragment at the hashing cursor never advances dtlsHsHashFragMsg), and
+    (c) after a comparison of its range with the stored fragments' ranges (overlaps are counted twice otherwise)."""
+    from sa import cfgutil as cu
+    rid = "C08.R8"
+    res.rule(rid, "DTLS reassembly: a fragment is stored only with the stored message length, non-empty and after the overlap test")
+    fn = prog.fn("parseSSLHandshake")
+    gf = cu.guard_facts(fn)
+    n = 0
+    for b in fn.blocks:
+        for i, ln, x in cu.block_exprs(b):
+            for m in walk(x):
+                if not (m.get("k") == "bin" and m["op"] == "+=" and (strip(m["l"]) or {}).get("f") == "fragTotal"):
+                    continue
+                r = strip(m["r"])
+                if r is None or r.get("k") != "var":
+                    continue
+                n += 1
+                fl = r["n"]
+                facts = gf.get(b["id"], ())
+                same_len = any((txt in ("(hsLen != ssl->fragLenStored)", "(ssl->fragLenStored != hsLen)") and not tr) or
+                               (txt in ("(hsLen == ssl->fragLenStored)", "(ssl->fragLenStored == hsLen)") and tr) for (txt, tr) in facts)
+                non_empty = any((txt == fl and tr) or (txt == "(%s == 0)" % fl and not tr) or (txt in ("(%s > 0)" % fl, "(%s != 0)" % fl) and tr)
+                                for (txt, tr) in facts)
+
+                # (c) the overlap loop: some branch compares fragHeaders[i].offset (+ fragLen) with fragOffset, and the store lies
+                # behind the loop's exit (`i < bound` false) - with no stored fragment the loop body is legitimately skipped
+                idx = set()
+                for b2 in fn.blocks:
+                    t2 = b2.get("term")
+                    if t2 is not None and "c" in t2:
+                        tx = cu.ftext(t2["c"])
+                        mm = re.search(r"fragHeaders\[(\w+)\]\.offset", tx)
+                        if mm and "fragOffset" in tx and "<" in tx:
+                            idx.add(mm.group(1))
+                esc = None
+                if not idx or not any((not tr) and re.match(r"^\((%s) < \w+\)$" % "|".join(sorted(idx)), txt) for (txt, tr) in facts):
+                    esc = True
+                why = []
+                if not same_len:
+                    why.append("no fact hsLen == ssl->fragLenStored (later fragments may announce a longer message: parsed past the reassembly buffer)")
+                if not non_empty:
+                    why.append("no fact %s != 0 (an empty fragment stored at the hashing cursor loops dtlsHsHashFragMsg forever)" % fl)
+                if esc is not None:
+                    why.append("reachable without comparing its range with the stored fragments (overlaps counted twice: 'complete' with holes)")
+                f_ = None
+                if why:
+                    f_ = Finding(PROP, rid, fn.name, "DTLS fragment stored without the reassembly invariants",
+                                 "%s:%s parseSSLHandshake(): ssl->fragTotal += %s: %s" % (fn.relfile, ln, fl, "; ".join(why)),
+                                 file=fn.relfile, line=ln)
+                res.instance(rid, "parseSSLHandshake:%s fragment stored under same length, non-empty, overlap-tested" % ln, not why, finding=f_)
+    res.floor(rid, 1)
